@@ -7,10 +7,15 @@ import Driver.C16Gen
 
     yaml <v1beta1|v1|v2> <ext doc>   -> err | ok <config> <written ext doc> <same | err | config>
     work <( dir ... )>               -> err | ok <( dir ... )> <( written ... )> <same|err|…>
-    lock <ver> <( dep ... )>         -> err | ok <lock> <( written dep ... )> <same|err|…>
+    lock <ver> <( dep ... )> <( plugin ... )>
+                                     -> err | ok <lock> <( written dep ... )> <( written plugin ... )> <same|err|…>
     gen <( version body env )>      -> see lean/Driver/C16Gen.lean (buf.gen.yaml, same err|ok … shape)
-    migroot <moduleDir> <( (root (excl…)) … )> <( file … )>
-                                     -> per file: which v2 module path owns it before/after
+    migws <( (dir ((root (excl…)) …)) … )> <( file … )>
+                                     -> ( before ) ( v2 module … ) ( after ) agree|DISAGREE
+       dirs relative to the destination directory; before/after: per file the owner triples
+       (module dir, root, root-relative path) computed by BufModel.Config.owners on the v1
+       workspace resp. on the modules of readV2 (writeV2 (migrateFile ws)); agree = after is a
+       permutation of before renamed by migratedOwner (theorem migrate_preserves_targets_partial)
 
   ext doc layouts (positional):
     lint      ( use except ignore ignoreOnly enumZero rpcSame rpcReq rpcResp svcSuffix commentFlag disableBuiltin )
@@ -204,63 +209,98 @@ def toLockDep : Node → Option ExtLockDep
     pure ⟨← r.asAtom, ← o.asAtom, ← n.asAtom, ← nv.asBool, ← c.asAtom, ← cv.asBool, ← d.asAtom, toDigestType (← dt.asAtom)⟩
   | _ => none
 
-def lockN (l : BufLock) : Node :=
-  L [A (sl (verS l.version)), L (l.deps.map fun d => L [A d.remote, A d.owner, A d.repository, A d.commit, A d.digest])]
+def toLockPlugin : Node → Option ExtLockPlugin
+  | .list [n, nv, c, cv, d, dv] => do
+    pure ⟨← n.asAtom, ← nv.asBool, ← c.asAtom, ← cv.asBool, ← d.asAtom, ← dv.asBool⟩
+  | _ => none
+
+def lockN (f : BufLockFile) : Node :=
+  L [A (sl (verS f.lock.version)),
+     L (f.lock.deps.map fun d => L [A d.remote, A d.owner, A d.repository, A d.commit, A d.digest]),
+     L (f.plugins.map fun p => L [A p.name, A p.commit, A p.digest])]
 
 def extLockN (ds : List ExtLockDep) : Node :=
   L (ds.map fun d => L [A d.remote, A d.owner, A d.repository, B d.nameValid, A d.commit, B d.commitValid, A d.digest, A (sl (digestTypeS d.digestType))])
 
+def extLockPluginsN (ps : List ExtLockPlugin) : Node :=
+  L (ps.map fun p => L [A p.name, B p.nameValid, A p.commit, B p.commitValid, A p.digest, B p.digestValid])
+
 def toVer (s : String) : Ver := if s = "v2" then .v2 else if s = "v1" then .v1 else .v1beta1
 
-def handleLock (ver : String) (n : Node) : String :=
-  match n.asList with
-  | none => "bad-node"
-  | some xs =>
-    match xs.mapM toLockDep with
-    | none => "bad-node"
-    | some ds =>
-      match readLock (toVer ver) ds with
+def handleLock (ver : String) (n pn : Node) : String :=
+  match n.asList, pn.asList with
+  | some xs, some ys =>
+    match xs.mapM toLockDep, ys.mapM toLockPlugin with
+    | some ds, some ps =>
+      match readLockFile (toVer ver) ds ps with
       | none => "err"
-      | some l =>
-        let w := writeLock l
-        "ok " ++ render (lockN l) ++ " " ++ render (extLockN w) ++ " " ++ third l (readLock (toVer ver) w) lockN
+      | some f =>
+        let w := writeLockFile f
+        "ok " ++ render (lockN f) ++ " " ++ render (extLockN w.1) ++ " " ++ render (extLockPluginsN w.2) ++ " " ++
+          third f (readLockFile (toVer ver) w.1 w.2) lockN
+    | _, _ => "bad-node"
+  | _, _ => "bad-node"
 
-/-- migroot: for every file (path relative to the destination directory) report the v2 module
-    paths that own it after migration of a v1beta1/v1 module at `moduleDir` with the given
-    roots/excludes, and whether that equals ownership through the roots before. -/
-def handleMigRoot (dir : String) (rootsN filesN : Node) : String :=
-  match normP (sl dir) |>.nv, rootsN.asList, filesN.asStrs with
-  | some d, some rs, some fs =>
-    let roots : Option (List Root) := rs.mapM fun r =>
-      match r with
-      | .list [root, excl] => do
-        let rk ← (normP (← root.asAtom)).nv
-        let ex ← (← excl.asStrs).mapM fun s => (normP s).nv
-        pure ⟨rk, [], ex⟩
+def dfltLint : Lint := ⟨⟨false, [], [], [], [], false⟩, [], false, false, false, [], false⟩
+def dfltBreaking : Breaking := ⟨⟨false, [], [], [], [], false⟩, false⟩
+
+def tripleN (o : Key × Key × Key) : Node := L [keyN o.1, keyN o.2.1, keyN o.2.2]
+
+/-- canonical order of the owner triples of one file: by module directory, then root (string order) -/
+def ownerLt (a b : Key × Key × Key) : Bool :=
+  strLt (renderKey a.1 ++ [Char.ofNat 0] ++ renderKey a.2.1) (renderKey b.1 ++ [Char.ofNat 0] ++ renderKey b.2.1)
+
+def permB (a b : List (Key × Key × Key)) : Bool :=
+  a.length == b.length && a.all fun x => a.count x == b.count x
+
+/-- migws: BOTH sides are evaluated with the model's `owners` (the shared workspace targeting):
+    before = the v1/v1beta1 workspace as given, after = the modules the v2 reader returns for what
+    the v2 writer writes for the migrator's file. -/
+def handleMigWs (wsN filesN : Node) : String :=
+  match wsN.asList, filesN.asStrs with
+  | some ms, some fs =>
+    let ws : Option (List Module) := ms.mapM fun m =>
+      match m with
+      | .list [dir, roots] => do
+        let d ← (normP (← dir.asAtom)).nv
+        let rs ← (← roots.asList).mapM fun r =>
+          match r with
+          | .list [root, excl] => do
+            let rk ← (normP (← root.asAtom)).nv
+            let ex ← (← excl.asStrs).mapM fun s => (normP s).nv
+            pure (⟨rk, [], ex⟩ : Root)
+          | _ => none
+        pure (⟨d, [], rs, dfltLint, dfltBreaking⟩ : Module)
       | _ => none
-    match roots with
-    | none => "bad-node"
-    | some roots =>
-      let ms := roots.map (migrateRoot d)
-      let outMods := L (ms.map fun m => L [keyN m.2, keysN (m.1.excludes.map fun x => m.2 ++ x)])
-      let owners := fs.map fun f =>
-        match (normP f).nv with
-        | none => A (sl "?")
-        | some fk => keysN ((ms.filter fun m => inV2Module m fk).map (·.2))
-      render (L [outMods, L owners])
-  | _, _, _ => "bad-node"
+    match ws, fs.mapM (fun f => (normP f).nv) with
+    | some ws, some fks =>
+      match migrateFile id id ws [] with
+      | none => "migrate-none"
+      | some c =>
+        match readV2 (writeV2 c) with
+        | none => "reread-err"
+        | some c' =>
+          let before := fks.map fun f => sortStable ownerLt (owners ws f)
+          let after := fks.map fun f => sortStable ownerLt (owners c'.modules f)
+          let mods := L (c'.modules.map fun m =>
+            L [keyN m.dirPath, keysN ((m.roots.headD ⟨[], [], []⟩).excludes.map fun x => m.dirPath ++ x)])
+          let agree := (fks.all fun f => permB (owners c'.modules f) ((owners ws f).map migratedOwner)) && decide (c' = c)
+          render (L (before.map fun os => L (os.map tripleN))) ++ " " ++ render mods ++ " " ++
+            render (L (after.map fun os => L (os.map tripleN))) ++ " " ++ (if agree then "agree" else "DISAGREE")
+    | _, _ => "bad-node"
+  | _, _ => "bad-node"
 
 def handle : List String → String
   | ["yaml", ver, a] => match parse a with
       | some n => handleYaml ver n | none => "bad-node"
   | ["work", a] => match parse a with
       | some n => handleWork n | none => "bad-node"
-  | ["lock", ver, a] => match parse a with
-      | some n => handleLock ver n | none => "bad-node"
+  | ["lock", ver, a, b] => match parse a, parse b with
+      | some n, some pn => handleLock ver n pn | _, _ => "bad-node"
   | ["gen", a] => match parse a with
       | some n => Driver.C16Gen.handleGen n | none => "bad-node"
-  | ["migroot", dir, a, b] => match hexDecode dir, parse a, parse b with
-      | some d, some x, some y => handleMigRoot d x y | _, _, _ => "bad-node"
+  | ["migws", a, b] => match parse a, parse b with
+      | some x, some y => handleMigWs x y | _, _ => "bad-node"
   | _ => "bad-op"
 
 def run : IO Unit := runLines handle
